@@ -42,6 +42,9 @@ def single_edits(h: str, per_pos=3):
         if b - a > 1:
             yield "drop-token", a, h[:a] + h[b:]
             yield "dup-token", a, h[:b] + h[a:b] + h[b:]
+        # a field grown by characters of its own kind (over-long salt / digest / number)
+        yield "grow-token", b, h[:b] + h[b - 1] + h[b:]
+        yield "grow-token", b, h[:b] + (h[a:b] * 3)[:3] + h[b:]
     yield "append", len(h), h + (h[-1] if h else "x")
     yield "append", len(h), h + "$"
     yield "empty", 0, ""
